@@ -168,6 +168,48 @@ pub fn run(thorough: bool) -> Vec<Part> {
             |i| format!("content-length edge #{}", i),
         );
         t2.record(&mut part, "content-length-edges");
+        // many distinct custom headers in one request
+        {
+            let mut t3 = crate::par::Tally::default();
+            for count in [10usize, 64, 65, 66, 128, 200, 300] {
+                let mut stream = b"GET /many HTTP/1.1\r\n".to_vec();
+                for i in 0..count {
+                    stream.extend_from_slice(format!("X-H{}: v{}\r\n", i, i).as_bytes());
+                }
+                stream.extend_from_slice(b"\r\n");
+                stream.extend_from_slice(&tail);
+                let mut cfg = Cfg::base("C02", &format!("{} distinct custom headers", count), vec![], 51200);
+                cfg.stream = Some(stream.clone());
+                cfg.empty_reads = false;
+                for segs in [vec![stream.len()], vec![100; stream.len() / 100 + 1]] {
+                    let (v, _, _, acts) = connx::run_segments(&cfg, &segs, false);
+                    t3.evals += 1;
+                    t3.nontrivial += 1;
+                    if let Some((sig, detail)) = v {
+                        t3.violate(&sig, format!("[{} distinct custom headers] {}", count, &detail[..detail.len().min(600)]), connx::schedule_replay(&cfg, &acts));
+                    }
+                }
+            }
+            // bodies beyond the default limit on a connection whose limit was raised
+            for (n, lim) in [(51200usize, 51200usize), (51300, 131072), (60000, 131072), (70000, 70000), (70001, 70000)] {
+                let mut stream = format!("PUT /big HTTP/1.1\r\nContent-Length: {}\r\n\r\n", n).into_bytes();
+                stream.extend((0..n).map(|j| (j % 253) as u8));
+                stream.extend_from_slice(&tail);
+                let mut cfg = Cfg::base("C02", &format!("{}-byte body under limit {}", n, lim), vec![], lim);
+                cfg.stream = Some(stream.clone());
+                cfg.empty_reads = false;
+                for segs in [vec![stream.len()], vec![1000; stream.len() / 1000 + 1]] {
+                    let (v, _, _, acts) = connx::run_segments(&cfg, &segs, false);
+                    t3.evals += 1;
+                    t3.nontrivial += 1;
+                    if let Some((sig, detail)) = v {
+                        t3.violate(&sig, format!("[{}-byte body under limit {}] {}", n, lim, &detail[..detail.len().min(600)]), connx::schedule_replay(&cfg, &acts[..acts.len().min(300)]));
+                    }
+                }
+            }
+            t3.sample(json!({"distinct_custom_headers": [10, 64, 65, 66, 128, 200, 300]}));
+            t3.record(&mut part, "many-custom-headers");
+        }
         part.set("rule", json!("every base request x every single-point corruption x {greedy, one-byte reads}; non-trivial = the input is a corrupted (non-identity) request; all inputs are distinct by construction"));
         part.set("exhaustive", json!(true));
         // model-checking keys for this part: each run is one full execution compared step by step
